@@ -44,6 +44,10 @@ def replay(case):
     import asyncio
     import ahb
     ahb.configure()
+    E._KM.clear(); E._KM_INV.clear()
+    for k, v in (case.get("keymap") or {}).items():
+        E._KM[int(k)] = v
+        E._KM_INV[v] = int(k)
     asg = {int(k): v for k, v in case["asg"].items()}
     a = asyncio.run(E.eval_real(case["expr"], asg))
     print("original   :", case["expr"], asg, "->", a)
